@@ -67,6 +67,11 @@ func isCardNumberValid(cardNumber uint32, formats ...types.CardFormat) bool {
 }
 
 func isWiegand26(card uint32) bool {
+	// a Wiegand-26 card number has at most 8 digits (3 digit facility code + 5 digit card number)
+	if card > 99999999 {
+		return false
+	}
+
 	s := fmt.Sprintf("%08v", card)
 
 	if facilityCode, err := strconv.Atoi(s[:3]); err != nil {
